@@ -845,3 +845,84 @@ Definition qry_verdict (c : qry_case) : verdict :=
                                                    l (pins_of_base (fst t) pins)
                                | Raised => false end) (q_pinsof c) in
   if okb && okm && okp then Agree else Differ.
+
+(* ---- C14: InPulse export / import ---- *)
+From Coq Require Import Qabs.
+From Lekkersim Require Import InPulse.
+
+Definition toC (z : BQCf) : C := (BigQ.to_Q (fst z), BigQ.to_Q (snd z)).
+Definition Qtol9 : Q := (1 # 1000000000)%Q.
+Definition cqclose (a b : C) : bool :=
+  Qle_bool (Qabs (Qred (fst a - fst b))) Qtol9 && Qle_bool (Qabs (Qred (snd a - snd b))) Qtol9.
+
+Record ip_case := {
+  ip_pins : list (string * option string * nat);       (* the exported model's pins and their indices *)
+  ip_S : list lmx;                                     (* its matrix per sweep point (index order) *)
+  ip_xs : option (list bigQ);                          (* sweep values of a one-parameter sweep *)
+  ip_mm : option (list (string * string));             (* mode mapping given at load time *)
+  ip_obs_pins : obs (list (string * option string));   (* loaded pins, in loaded index order *)
+  ip_obs_grid : obs (list lmx);                        (* loaded model at every exported point *)
+  ip_obs_mid : obs (list (bigQ * lmx))                 (* loaded model at in-between parameter values *)
+}.
+
+Fixpoint ins_pt (p : Q * C) (l : list (Q * C)) : list (Q * C) :=
+  match l with
+  | [] => [p]
+  | q :: r => if Qle_bool (fst p) (fst q) then p :: l else q :: ins_pt p r
+  end.
+Definition sort_pts (l : list (Q * C)) : list (Q * C) := fold_right ins_pt [] l.
+
+Definition coeff_mid (L : loaded C) (xs : list Q) (x : Q) (i j : nat) : option C :=
+  if strictly_inc xs then coeff_interp C (fun z => z) L xs x i j else
+  match entry_for (InPulse.l_pins C L) (l_entries C L) i j with
+  | None => Some czero
+  | Some e => match col_lookup C (snd e) (l_cols C L) with
+              | Some vals => interp1 (sort_pts (combine xs vals)) x
+              | None => None
+              end
+  end.
+
+Definition ip_model (c : ip_case) : solved :=
+  let pins := map (fun t => mkpin (fst t)) (ip_pins c) in
+  {| s_pins := pins;
+     s_idx := fun p => match find (fun t => pin_eqb (mkpin (fst t)) p) (ip_pins c) with
+                       | Some t => snd t | None => 0%nat end;
+     s_S := map (fun M => fun i j => toC (mxl M i j)) (ip_S c) |}.
+
+Definition ip_loaded (c : ip_case) : result (loaded C) :=
+  match encode C (fun z => z) (fun l => l) (ip_model c) with
+  | Err e => Err e
+  | Ok f => match ip_mm c with
+            | None => Ok (decode C f)
+            | Some mm => select_modes C mm (decode C f)
+            end
+  end.
+
+Definition ip_matrix_ok (L : loaded C) (opins : list pin) (get : nat -> nat -> option C) (M : lmx) : bool :=
+  let pins := InPulse.l_pins C L in
+  forallb (fun p => forallb (fun q =>
+     match get (pin_pos p pins) (pin_pos q pins) with
+     | Some v => cqclose v (toC (mxl M (pin_pos p opins) (pin_pos q opins)))
+     | None => false
+     end) pins) pins.
+
+Definition ip_verdict (c : ip_case) : verdict :=
+  match ip_loaded c with
+  | Err _ => (match ip_obs_pins c with Raised => BothReject | Obs _ => ModelUndefined end)
+  | Ok L =>
+      match ip_obs_pins c, ip_obs_grid c, ip_obs_mid c with
+      | Obs ps, Obs gs, Obs ms =>
+          let opins := map mkpin ps in
+          let pins_ok := perm_eqb pin_eqb opins (InPulse.l_pins C L) in
+          let grid_ok := Nat.eqb (List.length gs) (List.length (ip_S c)) &&
+                         forallb (fun k => ip_matrix_ok L opins (coeff_at C (fun z => z) L k) (nth k gs []))
+                                 (seq 0 (List.length (ip_S c))) in
+          let mid_ok := match ip_xs c with
+                        | None => true
+                        | Some xs => let xq := map BigQ.to_Q xs in
+                            forallb (fun xm => ip_matrix_ok L opins (coeff_mid L xq (BigQ.to_Q (fst xm))) (snd xm)) ms
+                        end in
+          if pins_ok && grid_ok && mid_ok then Agree else Differ
+      | _, _, _ => ImplError
+      end
+  end.
